@@ -676,24 +676,54 @@ def mp4(ctx, R):
     # the predicate as a call, or inlined on the reader the file object keeps
     IIO = lambda c: (isinstance(c, tuple) and c and c[0] in ("method", "call") and "is_index_file_only" in str(c[1])) or c in inlined
     fi = prog.func("tdms.TdmsFile.__init__")
-    sy = Sym(prog, fi, fi.cls)
     from .flow import resolve_call
-    call = [c for c in walk_body(fi.node) if isinstance(c, ast.Call) and any(f.qual == "tdms.TdmsFile._read_file" for f, _k in resolve_call(prog, fi, fi.cls, c))]
-    ok = False
-    if call:
-        callee = prog.func("tdms.TdmsFile._read_file")
-        ps = [p for p in callee.params if p != "self"]
-        i = next((k for k, p in enumerate(ps) if "metadata_only" in p), 1)
-        e2, _ = sy.env_at(call[0])
-        arg = call[0].args[i] if len(call[0].args) > i else next((k.value for k in call[0].keywords if k.arg == ps[i]), None)
-        v = sy.expr(arg, e2) if arg is not None else None
-        if v is not None:
-            forced = simplify(v, lambda c: True if IIO(c) else None)
-            free = simplify(v, lambda c: False if IIO(c) else None)
-            t = eval_cond(forced, lambda c: True if IIO(c) else None)
-            ok = (forced == ("const", True) or t is True) and free[0] == "param"
-    R.check(ok, "tdms.TdmsFile.__init__::metadata only when index only", fi.where(), "index-only input forces read_metadata_only",
-            "an index-only input is not forced to metadata-only reading")
+    from .region import call_reaches, call_targets
+    from .sem import call_arg, subst
+    EAGER = {"reader.TdmsReader.read_raw_data"}
+    orc = lambda c: True if IIO(c) else None
+    unblocked = []
+    n_sites = [0]
+
+    def descend(f, binding, depth, chain):
+        """calls in f that reach the eager data read and are not excluded when the reader is index-only"""
+        sf = Sym(prog, f, f.cls)
+        for c in walk_body(f.node):
+            if not (isinstance(c, ast.Call) and call_reaches(ctx, f, c, EAGER)):
+                continue
+            if any(isinstance(x, ast.Call) and x is not c and call_reaches(ctx, f, x, EAGER) for x in ast.walk(c)):
+                continue        # the inner call is examined on its own
+            n_sites[0] += 1
+            env, guards = sf.env_at(c)
+            gs = []
+            for g in guards:
+                for p_, a_ in binding.items():
+                    g = subst(g, ("param", p_), a_)
+                gs.append(g)
+            if any(eval_cond(simplify(g, orc), orc) is False for g in gs):
+                continue
+            tgts = [prog.functions[q] for q in call_targets(ctx, f, c) if q in prog.functions]
+            inner = [t for t in tgts if t.module.name == "tdms" and depth < 4]
+            if not inner:
+                unblocked.append((f, c, chain))
+                continue
+            for t in inner:
+                b2 = {}
+                for p_ in t.params:
+                    if p_ in ("self", "cls"):
+                        continue
+                    a_ = call_arg(prog, c, t, p_, sf, env)
+                    if a_ is not None:
+                        for p0, a0 in binding.items():
+                            a_ = subst(a_, ("param", p0), a0)
+                        b2[p_] = a_
+                descend(t, b2, depth + 1, chain + [t.qual])
+    descend(fi, {}, 0, [fi.qual])
+    if not n_sites[0]:
+        raise AnchorMissing("tdms.TdmsFile.__init__: a call that reaches the eager data read")
+    R.check(not unblocked, "tdms.TdmsFile.__init__::metadata only when index only", fi.where(), "no call on the way to the eager data read is executed when "
+            "the reader is index-only (%d call sites examined)" % n_sites[0],
+            "an index-only input is not forced to metadata-only reading: %s is reached through %s without a condition that excludes an index-only reader" % (
+                unparse(unblocked[0][1])[:60] if unblocked else "", " -> ".join(unblocked[0][2]) if unblocked else ""))
     rc = prog.func("tdms.TdmsChannel._read_channel_data")
     cfg = ctx.cfg(rc)
     guard_nodes = nodes_reaching(ctx, rc, cfg, {"reader.TdmsReader.is_index_file_only"})
